@@ -1,11 +1,19 @@
 ---------------------------- MODULE SeedLexRun ----------------------------
 (* Runs the lexer machine on texts given as data (one JSON object per line of *)
 (* the file named by SEED_TEXTS, field `src`: the characters as code points). *)
-EXTENDS SeedLex, Json, IOUtils
+EXTENDS SeedLex, SeedGrammar, Json, IOUtils
 Texts == ndJsonDeserialize(IOEnv.SEED_TEXTS)
 VARIABLE ti
 InitL == \E i \in 1 .. Len(Texts) : ti = i /\ LexInit(Texts[i].src)
 NextL == LexNext /\ ti' = ti
+Kinds == [i \in 1 .. Len(toks) |-> toks[i].k]
+\* what the front end must do with this text: accept it, or reject it at the first token
+\* that cannot continue a program (or at the lexical error, if the tokens before it can)
+Predicted ==
+    LET v == Verdict(Kinds) IN
+    IF mode = "failed"
+    THEN IF v.at <= Len(toks) THEN [kind |-> "syntax", at |-> v.at] ELSE [kind |-> "lexical", at |-> 0]
+    ELSE IF v.ok THEN [kind |-> "accept", at |-> 0] ELSE [kind |-> "syntax", at |-> v.at]
 EmitL == mode \in {"done", "failed"} =>
-            PrintT("LEX " \o ToJson([ti |-> ti, toks |-> toks, err |-> err, msg |-> LexMsg(err)]))
+            PrintT("LEX " \o ToJson([ti |-> ti, toks |-> toks, err |-> err, msg |-> LexMsg(err), parse |-> Predicted]))
 =============================================================================
